@@ -40,14 +40,27 @@ impl Jail {
         match dest {
             0 => self.target(),
             1 => PathBuf::from("../t/target"),
-            _ => self.root.join("alias/target"),
+            2 => self.root.join("alias/target"),
+            _ => self.target(),
+        }
+    }
+    /// destination 3: the target exists already and holds links that lead out of it, under the names the alphabet uses
+    pub fn prepare(&self, dest: u8) {
+        if dest == 3 {
+            let t = self.target();
+            std::fs::create_dir_all(t.join("d")).unwrap();
+            std::os::unix::fs::symlink("../../outside-dir", t.join("l")).unwrap();
+            std::os::unix::fs::symlink("../../outside.txt", t.join("f")).unwrap();
+            std::os::unix::fs::symlink("../../outside.txt", t.join("s.txt")).unwrap();
+            std::os::unix::fs::symlink("../../../outside.txt", t.join("d/f")).unwrap();
         }
     }
     pub fn dest_name(dest: u8) -> &'static str {
         match dest {
             0 => "<jail>/t/target (absolute)",
             1 => "../t/target (relative to the working directory <jail>/cwd)",
-            _ => "<jail>/alias/target (absolute; <jail>/alias is a symbolic link to the directory t)",
+            2 => "<jail>/alias/target (absolute; <jail>/alias is a symbolic link to the directory t)",
+            _ => "<jail>/t/target (absolute), which exists already and holds l -> ../../outside-dir, f -> ../../outside.txt, s.txt -> ../../outside.txt, d/f -> ../../../outside.txt",
         }
     }
     pub fn outside_dir(&self) -> String {
@@ -215,6 +228,7 @@ fn hostile_files(sub: &str, jail: &Jail, files: Vec<FFile>, stripped: bool, dest
             return;
         }
     };
+    jail.prepare(dest);
     let before = jail.snapshot();
     let r = catch(|| p.extract(jail.target_arg(dest)));
     let after = jail.snapshot();
@@ -428,10 +442,10 @@ pub fn sweeps(ctx: &Ctx) -> Vec<Sweep> {
     // singles over the full alphabet
     {
         let a = full.clone();
-        let n = a.len() as u64 * 6;
-        v.push(Sweep::new("hostile-1", format!("every single entry of the alphabet: dirname ∈ {:?} × basename ∈ {{f, l, .., ../f, \"\", absolute path inside the jail, l/f, l/s/f, s.tmp, s.txt}} × kind ∈ {{regular, directory, symlink → f | .. | ../.. | ../../outside.txt | ../../outside-dir | absolute jail path | ../../dangling (not existing), fifo}} ({} extractions: each as a newc archive and as stripped index-addressed entries, into an absolute destination, a relative one, and an absolute one that leads through a symbolic link above the target); snapshot of everything outside the target before/after extract; no panic", DIRS, n), n, {
+        let n = a.len() as u64 * 8;
+        v.push(Sweep::new("hostile-1", format!("every single entry of the alphabet: dirname ∈ {:?} × basename ∈ {{f, l, .., ../f, \"\", absolute path inside the jail, l/f, l/s/f, s.tmp, s.txt}} × kind ∈ {{regular, directory, symlink → f | .. | ../.. | ../../outside.txt | ../../outside-dir | absolute jail path | ../../dangling (not existing), fifo}} ({} extractions: each as a newc archive and as stripped index-addressed entries, into an absolute destination, a relative one, an absolute one that leads through a symbolic link above the target, and a target that exists already and holds links leading out of it); snapshot of everything outside the target before/after extract; no panic", DIRS, n), n, {
             let jail = Jail::new("h1");
-            move |i, acc| hostile_case("hostile-1", &jail, &[&a[(i / 6) as usize]], i % 2 == 1, (i % 6 / 2) as u8, i, acc)
+            move |i, acc| hostile_case("hostile-1", &jail, &[&a[(i / 8) as usize]], i % 2 == 1, (i % 8 / 2) as u8, i, acc)
         }));
     }
     // ordered pairs
@@ -553,7 +567,7 @@ pub fn replay(_ctx: &Ctx, v: &Value) -> i32 {
         files.push(f);
     }
     let stripped = c["archive"].as_str().map(|a| a.starts_with("stripped")).unwrap_or(false);
-    let relative = c["extract_destination"].as_str().map(|a| if a.starts_with("../") { 1u8 } else if a.contains("alias") { 2 } else { 0 }).unwrap_or(0);
+    let relative = c["extract_destination"].as_str().map(|a| if a.starts_with("../") { 1u8 } else if a.contains("alias") { 2 } else if a.contains("exists already") { 3 } else { 0 }).unwrap_or(0);
     let mut acc = Acc::new();
     hostile_files("replay", &jail, files, stripped, relative, 0, &mut acc);
     for (k, n) in &acc.hist {
